@@ -298,6 +298,7 @@ def run_sched(cfg: Cfg, c: Ctx) -> Any:
             if c.choose(2, "edge"):
                 deps[labels[i]].append(labels[j])
     act: Dict[str, str] = {}
+    act_indexed = False
     if cfg.activation and N >= 2:
         # the flag of one node is the result of an earlier node or the (symbolic) DAG input
         pairs = [(j, i) for i in range(N) for j in range(i)] + [(-1, i) for i in range(N)]
@@ -305,6 +306,7 @@ def run_sched(cfg: Cfg, c: Ctx) -> Any:
         if k:
             j, i = pairs[k - 1]
             act[labels[i]] = labels[j] if j >= 0 else "IN"
+            act_indexed = bool(c.choose(2, "act_indexed"))  # twz_active=flag[0] instead of twz_active=flag
     alldeps = {l: list(dict.fromkeys(deps[l] + ([act[l]] if l in act and act[l] != "IN" else []))) for l in labels}
     # ---- attributes
     res: Dict[str, str] = {}
@@ -394,6 +396,8 @@ def run_sched(cfg: Cfg, c: Ctx) -> Any:
             args, kw = call_shape(l, x, r)
             if l in act:
                 kw["twz_active"] = x if act[l] == "IN" else r[act[l]]
+                if act_indexed:
+                    kw["twz_active"] = kw["twz_active"][0]
             r[l] = xns[l](*args, **kw)
         return tuple(r[l] for l in labels)
 
@@ -429,6 +433,8 @@ def run_sched(cfg: Cfg, c: Ctx) -> Any:
         active = True
         if l in act:
             flag = X if act[l] == "IN" else ref[act[l]]
+            if act_indexed and flag is not None:
+                flag = flag[0]
             active = bool(flag) if flag is not None else False
         spec["active"][l] = active
         if l not in exec_set or not active:
